@@ -59,10 +59,16 @@ def run(rep, tier, seed):
                 buf = rng.choice(["", "foo bar", "a (b) 'c' xyz"])
                 cur = rng.randint(0, len(buf))
                 reg = rng.choice("abr")
-                paste = rng.random() < 0.3
+                # (Vi scripts are typed key by key: whether ESC stands alone or starts a sequence is a matter of timing there)
+                paste = style == "emacs" and rng.random() < 0.3
                 mode = "emacs" if style == "emacs" else "vi-command"
                 if style == "vi" and buf:
                     cur = min(cur, len(buf) - 1)
+                # Vi: sometimes a second macro is recorded in another register before the first one is run
+                other = b""
+                if style == "vi" and rng.random() < 0.35:
+                    reg2 = rng.choice([r for r in "abr" if r != reg])
+                    other = b"q" + reg2.encode() + rng.choice([b"x", b"dw", b"iq\x1bl", b"~", b"rz", b"0", b"A!\x1b"]) + b"q"
                 for variant in ("typed", "replayed"):
                     # one Readline call per variant: both start from the same (empty) undo history
                     sess = []
@@ -71,11 +77,11 @@ def run(rep, tier, seed):
                     sess.append(SETUP_KEY)
                     # both variants record K; one then replays the macro, the other types K again
                     if variant == "typed":
-                        seq = [b"\x18(", K, b"\x18)", K] if style == "emacs" else [b"q" + reg.encode(), K, b"q", K]
+                        seq = [b"\x18(", K, b"\x18)", K] if style == "emacs" else [b"q" + reg.encode(), K, b"q", other, K]
                     elif style == "emacs":
                         seq = [b"\x18(", K, b"\x18)", b"\x18e"]
                     else:
-                        seq = [b"q" + reg.encode(), K, b"q", b"@" + reg.encode()]
+                        seq = [b"q" + reg.encode(), K, b"q", other, b"@" + reg.encode()]
                     for part in seq:
                         if paste:
                             sess.append(keys(part))
@@ -83,7 +89,7 @@ def run(rep, tier, seed):
                             for ch in (split_vi(part) if style == "vi" else [part[i:i + 1] for i in range(len(part))]):
                                 sess.append(keys(ch))
                     sess.append({"k": "gate"})
-                pairs.append({"K": K.hex(), "buf": buf, "cur": cur, "style": style, "paste": paste})
+                pairs.append({"K": K.hex(), "buf": buf, "cur": cur, "style": style, "paste": paste, "other": other.hex()})
             cases.append(cs)
             meta[cs["id"]] = pairs
     log("C18: %d macro scripts in %d cases" % (sum(len(v) for v in words.values()), len(cases)))
